@@ -210,6 +210,47 @@ def roundtrip(run, rng):
             run.fail("roundtrip-sessions", c2, dict(before=a.keys(), after=b.keys()))
 
 
+def curve_api(run):
+    """the ~Curves section edited through the LASFile API (append / insert / delete / REPLACE of curves, by position and by name): after
+    every operation the session names are distinct, resolve to their own curve (item, attribute, LASFile[...]), and the group of the
+    curve just added is numbered in section order"""
+    from . import c14
+    tmpl = [t for t in c14.alphabet() if t[0] in ("append_curve", "insert_curve", "append_item", "insert_item", "replace_item", "delete_ix", "delete_mnem")
+            and not (len(t) > 2 and t[-1] is False)]
+    tmpl += [["replace_item", i, n, True] for i in (0, 1, 2, -1, -2) for n in ("A", "a", "", "B", "A:1")]
+    rng = run.rng
+    for n in range(run.budget(300, 4000)):
+        seq = [rng.choice(tmpl[:9]) for _ in range(rng.randint(1, 3))] + [rng.choice(tmpl) for _ in range(rng.randint(1, 5))]
+        curve_api_case(run, rng.choice(["fresh", "read-upper", "read-preserve"]), c14.with_values(seq))
+
+
+def curve_api_case(run, start, ops):
+    from . import c14
+    case = {"stream": "curve-api", "start": start, "ops": ops}
+    las = c14.new_las(start)
+    dup = False
+    for op in ops:
+        r = c14.apply_real(las, op)
+        added = None
+        if r == "ok":
+            added = {"append_curve": lambda: op[1], "insert_curve": lambda: op[2], "append_item": lambda: op[1][0],
+                     "insert_item": lambda: op[2][0], "replace_item": lambda: op[2][0]}.get(op[0], lambda: None)()
+        before = len(run.failures)
+        oracle(run, las.curves, case, after_insert_of=added)
+        case2 = dict(case, origs_clash=clash([c.original_mnemonic for c in list.__iter__(las.curves)], las.curves.mnemonic_transforms))
+        for c in list(list.__iter__(las.curves)):
+            try:
+                if las[c.mnemonic] is not c.data:
+                    run.fail("lasfile-getitem", case2, dict(name=c.mnemonic))
+            except Exception as e:
+                run.fail("lasfile-getitem", case2, dict(name=c.mnemonic, exc=repr(e)))
+        names = [c.mnemonic for c in list.__iter__(las.curves)]
+        dup = dup or any(":" in x for x in names)
+        if len(run.failures) > before:
+            break
+    run.case(case, nontrivial=dup, tags=["curve-api", start])
+
+
 def run(run):
     batch = []
 
@@ -236,6 +277,7 @@ def run(run):
     flush()
     for _ in range(run.budget(400, 6000)):
         roundtrip(run, run.rng)
+    curve_api(run)
 
 
 def search(run, disagreements):
@@ -273,7 +315,9 @@ def shrink(run, f):
 
 def replay(run, payload):
     case = payload["case"]
-    if "ops" in case:
+    if case.get("stream") == "curve-api":
+        curve_api_case(run, case["start"], case["ops"])
+    elif "ops" in case:
         run_sequence(run, case["ops"], case["tr"], "replay")
     else:
         import random
